@@ -27,6 +27,11 @@ BUDGET_S = {"quick": 100, "thorough": 1200}
 def gen(rng, tier):
     n_cases = 200 if tier == "quick" else 3000
     for k in range(n_cases):
+        if k % 50 == 17:
+            # no customer at all: the empty selection satisfies the (empty) constraint system and decodes to no route
+            yield dict(form="arc", spec=dict(nodes=[dict(name="D", demand="0", lo="0", hi="inf")], arcs=[], cap="4", init="0"),
+                       grid=[fs(Fraction(t)) for t in range(rng.randint(1, 3))], seed=0)
+            continue
         if k % 4 != 3:
             spec, info = VU.gen_planted(rng, wide=(k % 4 == 2))
             case = dict(form="arc", spec=spec, grid=info["grid"], seed=rng.randrange(10 ** 6))
@@ -85,6 +90,15 @@ def run_case(case, drv):
     g = VU.graph_of(o)
     N = len(g["nodes"])
     res.features += [f"n:{n}", f"grid:{len(o.time_points)}"]
+    if n == 0 and N == 1:
+        # a depot and no customer: nothing to select, nothing to decode
+        try:
+            dec0 = o.get_routes(np.zeros(0))
+            if list(dec0) != []:
+                res.fail("arc:decode-empty", f"get_routes of the empty selection gives {core.jsonable(dec0)}")
+        except Exception as e:  # noqa
+            res.fail("arc:decode-empty", f"get_routes of the empty selection (no customer, no variable) raised {e!r}")
+        res.features.append("no-customer:decoded")
     if n == 0 or n > 17:
         res.nontrivial = False
         res.features.append("skipped:size")
